@@ -679,7 +679,7 @@ Proof.
     + rewrite <- Ed in *. destruct (l_et (st w)); [|inversion E; subst; exact H2].
       destruct (_ <? _).
       * eapply (mu_elwrite _ M); eauto.
-      * eapply U_trigger; [|exact H2|exact E]. reflexivity.
+      * eapply U_trigger; [| |exact E]; [reflexivity|]. apply U_emit; [uoign|exact H2].
   - destruct (is_eagain e); [inversion E; subst; exact H1|]. eapply (mu_close _ M); eauto.
   - inversion E; subst; exact H1.
 Qed.
